@@ -20,7 +20,9 @@ RULE = ("Two independently generated G-sim rank sets (1-3 ranks each, 1-3 profil
         "name count and total duration of the model events of the selected ranks whose model iteration is selected, per side; "
         "diffs = test - control; index = union of names; the five ops_diff classes are pairwise disjoint, cover every name and "
         "satisfy their definitions; a trace compared with itself (same directory twice, and the same LabeledTrace object twice) "
-        "yields only unchanged names and zero differences. Non-trivial: names in all of only-control, only-test, increased, "
+        "yields only unchanged names and zero differences; one case in three gives both LabeledTrace objects the same label, and "
+        "either ops_diff or compare_traces is the first call made on the pair (ops_diff, compare_traces, ops_diff or compare_traces, "
+        "ops_diff). Non-trivial: names in all of only-control, only-test, increased, "
         "decreased, unchanged. Distinct = distinct canonical case JSON.")
 ASSUMPTIONS = [
     "every trace has at least one profiler step (the API documents that a selection needs an iteration)",
@@ -88,46 +90,64 @@ def check(case: Dict[str, Any]) -> CaseInfo:
             files = write_case(case[label], sub)
             sides[label] = (sub, files)
         mk = lambda label: Trace(dict(sides[label][1]), sides[label][0])  # noqa: E731
+        equal = p.get("equal_labels", False)
         c_obj = hta_call("LabeledTrace(control)", lambda: LabeledTrace("Control", t=mk("control")))
-        t_obj = hta_call("LabeledTrace(test)", lambda: LabeledTrace("Test", t=mk("test")))
+        t_obj = hta_call("LabeledTrace(test)", lambda: LabeledTrace("Control" if equal else "Test", t=mk("test")))
         cr, tr = [r["rank"] for r in case["control"]["ranks"]], [r["rank"] for r in case["test"]["ranks"]]
         ci, ti = all_iterations(case["control"]), all_iterations(case["test"])
         require(hta_call("iterations", lambda: c_obj.iterations()) == ci and t_obj.iterations() == ti, "iterations", lambda: f"{ci} {ti}")
-        df = hta_call("compare_traces", lambda: TraceDiff.compare_traces(
-            c_obj, t_obj, p["control_rank"], p["test_rank"], p["control_iter"], p["test_iter"], dev, p["short"]))
         want_c = side_summary(case["control"], resolve(p["control_rank"], cr), resolve(p["control_iter"], ci), p["device"], p["short"])
         want_t = side_summary(case["test"], resolve(p["test_rank"], tr), resolve(p["test_iter"], ti), p["device"], p["short"])
-        names = sorted(set(want_c) | set(want_t))
-        require(sorted(df.index) == names and df.index.is_unique, "table:one_row_per_name",
-                lambda: f"missing {sorted(set(names) - set(df.index))} extra {sorted(set(df.index) - set(names))}")
-        for n in names:
-            r = df.loc[n]
-            wc, wt = want_c.get(n, [0, 0]), want_t.get(n, [0, 0])
-            got = [int(r["Control_counts"]), int(r["Control_total_duration"]), int(r["Test_counts"]), int(r["Test_total_duration"])]
-            require(got == wc + wt, "table:counts_and_durations", lambda: f"{n!r}: got {got}, expected {wc + wt}")
-            require(int(r["diff_counts"]) == wt[0] - wc[0] and int(r["diff_duration"]) == wt[1] - wc[1], "table:diff_is_test_minus_control",
-                    lambda: f"{n!r}: {r.to_dict()}")
-            sign = "+" if wt[0] > wc[0] else "-" if wt[0] < wc[0] else "="
-            require(r["counts_change_categories"] == sign, "table:change_category", lambda: f"{n!r}: {r['counts_change_categories']} vs {sign}")
-        # ---- ops_diff (long names only: the API has no short-name switch) ----
-        od = hta_call("ops_diff", lambda: TraceDiff.ops_diff(c_obj, t_obj, p["control_rank"], p["test_rank"], p["control_iter"],
-                                                              p["test_iter"], dev))
         lc = side_summary(case["control"], resolve(p["control_rank"], cr), resolve(p["control_iter"], ci), p["device"], False)
         lt = side_summary(case["test"], resolve(p["test_rank"], tr), resolve(p["test_iter"], ti), p["device"], False)
-        require(sorted(od) == ["added", "decreased", "deleted", "increased", "unchanged"], "ops_diff:keys", lambda: str(sorted(od)))
-        seen: Dict[str, str] = {}
-        for cls_, lst in od.items():
-            require(len(lst) == len(set(lst)), "ops_diff:duplicates_in_class", lambda: f"{cls_}: {lst}")
-            for n in lst:
-                require(n not in seen, "ops_diff:classes_disjoint", lambda: f"{n!r} in {seen.get(n)} and {cls_}")
-                seen[n] = cls_
-        allnames = set(lc) | set(lt)
-        require(set(seen) == allnames, "ops_diff:classes_cover_every_name", lambda: f"missing {sorted(allnames - set(seen))} extra {sorted(set(seen) - allnames)}")
-        for n, cls_ in seen.items():
-            a, b = lc.get(n, [0, 0])[0], lt.get(n, [0, 0])[0]
-            want = "added" if a == 0 else "deleted" if b == 0 else "increased" if b > a else "decreased" if b < a else "unchanged"
-            require(cls_ == want, "ops_diff:class_definition", lambda: f"{n!r}: control {a} test {b}: {cls_} expected {want}")
-        present = {seen[n] for n in seen}
+        present: set = set()
+
+        def table():
+            df = hta_call("compare_traces", lambda: TraceDiff.compare_traces(
+                c_obj, t_obj, p["control_rank"], p["test_rank"], p["control_iter"], p["test_iter"], dev, p["short"]))
+            # two traces given the same label: the test side is relabelled; the columns carry the objects' labels
+            cl, tl = c_obj.label, t_obj.label
+            require(cl == "Control" and tl != cl, "table:labels_distinct", lambda: f"{cl!r} {tl!r}")
+            names = sorted(set(want_c) | set(want_t))
+            require(sorted(df.index) == names and df.index.is_unique, "table:one_row_per_name",
+                    lambda: f"missing {sorted(set(names) - set(df.index))} extra {sorted(set(df.index) - set(names))}")
+            for n in names:
+                r = df.loc[n]
+                wc, wt = want_c.get(n, [0, 0]), want_t.get(n, [0, 0])
+                got = [int(r[cl + "_counts"]), int(r[cl + "_total_duration"]), int(r[tl + "_counts"]), int(r[tl + "_total_duration"])]
+                require(got == wc + wt, "table:counts_and_durations", lambda: f"{n!r}: got {got}, expected {wc + wt}")
+                require(int(r["diff_counts"]) == wt[0] - wc[0] and int(r["diff_duration"]) == wt[1] - wc[1], "table:diff_is_test_minus_control",
+                        lambda: f"{n!r}: {r.to_dict()}")
+                sign = "+" if wt[0] > wc[0] else "-" if wt[0] < wc[0] else "="
+                require(r["counts_change_categories"] == sign, "table:change_category", lambda: f"{n!r}: {r['counts_change_categories']} vs {sign}")
+
+        def ops():
+            # ---- ops_diff (long names only: the API has no short-name switch) ----
+            od = hta_call("ops_diff", lambda: TraceDiff.ops_diff(c_obj, t_obj, p["control_rank"], p["test_rank"], p["control_iter"],
+                                                                  p["test_iter"], dev))
+            require(sorted(od) == ["added", "decreased", "deleted", "increased", "unchanged"], "ops_diff:keys", lambda: str(sorted(od)))
+            seen: Dict[str, str] = {}
+            for cls_, lst in od.items():
+                require(len(lst) == len(set(lst)), "ops_diff:duplicates_in_class", lambda: f"{cls_}: {lst}")
+                for n in lst:
+                    require(n not in seen, "ops_diff:classes_disjoint", lambda: f"{n!r} in {seen.get(n)} and {cls_}")
+                    seen[n] = cls_
+            allnames = set(lc) | set(lt)
+            require(set(seen) == allnames, "ops_diff:classes_cover_every_name",
+                    lambda: f"missing {sorted(allnames - set(seen))} extra {sorted(set(seen) - allnames)}")
+            for n, cls_ in seen.items():
+                a, b = lc.get(n, [0, 0])[0], lt.get(n, [0, 0])[0]
+                want = "added" if a == 0 else "deleted" if b == 0 else "increased" if b > a else "decreased" if b < a else "unchanged"
+                require(cls_ == want, "ops_diff:class_definition", lambda: f"{n!r}: control {a} test {b}: {cls_} expected {want}")
+            present.update(seen[n] for n in seen)
+
+        # either call may be the first one made on this pair of objects
+        for step in ((ops, table, ops) if p.get("ops_first") else (table, ops)):
+            step()
+        if equal:
+            classes.append("both_sides_same_label")
+            if p.get("ops_first"):
+                classes.append("same_label_ops_diff_first")
         classes += ["class:" + c for c in present]
         # ---- self comparison ----
         if p["self_mode"] == "same_dir":
@@ -207,6 +227,7 @@ def c17_case(draw):
         "control_iter": _iter_sel(draw, all_iterations(control)), "test_iter": _iter_sel(draw, all_iterations(test)),
         "device": draw(st.sampled_from(["ALL", "CPU", "GPU"])), "short": draw(st.sampled_from([True, False])),
         "self_mode": draw(st.sampled_from(["same_object", "same_dir", "two_objects", "same_label"])),
+        "equal_labels": draw(st.sampled_from([True, False, False])), "ops_first": draw(st.sampled_from([True, False])),
     }
     return {"control": control, "test": test, "params": params}
 
@@ -221,5 +242,6 @@ def campaigns(tier: str) -> List[Campaign]:
     return [Campaign("diff", c17_case(), check, quick=240, thorough=14400, quick_shards=8,
                      required_classes={"class:added": 0.3, "class:deleted": 0.3, "class:increased": 0.12, "class:decreased": 0.12,
                                        "class:unchanged": 0.3, "multi_rank_selection": 0.1, "short_names": 0.2,
-                                       "short_name_merges": 0.1, "proper_rank_subset": 0.08},
+                                       "short_name_merges": 0.1, "proper_rank_subset": 0.08,
+                                       "same_label_ops_diff_first": 0.08},
                      sample_view=view)]
